@@ -122,7 +122,9 @@ fn next_str<'s>(bytes: &mut &'s [u8], state: &mut State) -> Option<&'s str> {
     });
     let (_, next) = bytes.split_at(offset.unwrap_or(bytes.len()));
     *bytes = next;
-    *state = State::Ground;
+    if offset.is_some() {
+        *state = State::Ground;
+    }
 
     let offset = bytes.iter().copied().position(|b| {
         let (_next_state, action) = state_change(State::Ground, b);
